@@ -7,7 +7,8 @@ Open Scope Z_scope.
 
 Definition hdr := option cosemap.
 Definition hmap (h : hdr) : cosemap := match h with Some m => m | None => [] end.   (* reading a nil map reads an empty one *)
-Definition is_none (h : hdr) : bool := match h with None => true | Some _ => false end.
+Definition is_none {A} (h : option A) : bool := match h with None => true | Some _ => false end.
+Definition olist {A} (o : option (list A)) : list A := match o with Some l => l | None => [] end.   (* ranging over / len of a nil slice *)
 Definition ohas (h : hdr) (l : Z) : bool := has (hmap h) l.
 Definition oget_int_ (h : hdr) (l : Z) : Z := get_int_ (hmap h) l.                  (* GetInt with the error dropped *)
 Definition oget_bytes (h : hdr) (l : Z) : res bytes := get_bytes (hmap h) l.
